@@ -17,7 +17,7 @@ func hs(pkg string, tagsBoth bool, w int, names ...string) []H {
 var smokeConform = []H{{Pkg: "ecs", Fn: "HSmoke"}}
 
 // stdConform: translator validation run by every check (engine log == native log).
-var stdConform = []H{{Pkg: "ecs", Fn: "HSmoke"}, {Pkg: "ecs", Fn: "HConf_Prefixes"}, {Pkg: "ecs", Fn: "HConf_Append"}, {Pkg: "ecs", Fn: "HConf_Batch"}, {Pkg: "ecs", Fn: "HConf_Events"},
+var stdConform = []H{{Pkg: "ecs", Fn: "HSmoke"}, {Pkg: "ecs", Fn: "HConf_Prefixes"}, {Pkg: "ecs", Fn: "HConf_Append"}, {Pkg: "ecs", Fn: "HConf_Batch"}, {Pkg: "ecs", Fn: "HConf_Events"}, {Pkg: "ecs", Fn: "HConf_Defer"},
 	{Pkg: "ecs", Fn: "HConf_Prefixes", Tags: "tiny"}, {Pkg: "ecs", Fn: "HConf_Batch", Tags: "tiny"}, {Pkg: "generic", Fn: "HConf_Generic"}}
 
 var props = []Prop{
